@@ -334,6 +334,8 @@ def main(run):
     # dot-file manager layouts (settings.json / ~/.evo are symbolic links)
     for layout in ("symlink_file", "symlink_dir"):
         for sc in (SCENARIOS if run.tier == "thorough" else ["import", "set", "upgrade", "reset_subset"]):
+            if layout == "symlink_dir" and sc == "set_dotdot":
+                continue  # '..' from inside a symlinked ~/.evo is the link target's parent: no such file
             n, writes = count_events(run, sc, layout)
             counts["%s [%s]" % (sc, layout)] = n
             for K in range(n + 1):
